@@ -540,3 +540,34 @@ pub fn unhex(s: &str) -> Vec<u8> {
     }
     out
 }
+
+/// Report a non-terminating call found by the CPU-time watchdog: writes a replay file and a
+/// minimal evidence file, prints the VIOLATION line and ends the process (the stuck thread cannot
+/// be stopped).  Honours known findings by signature like every other violation.
+pub fn report_stuck_and_exit(prop: &str, tier: Tier, seed: u64, op: &str, family: &str, input: &[u8], cpu_s: u64, budget_s: u64) -> ! {
+    let root = verif_root();
+    let signature = format!("{} does not terminate (CPU-time budget of {} s per call exhausted)", op, budget_s);
+    let known = load_known(prop);
+    if let Some(k) = known.iter().find(|k| k.signature == signature) {
+        println!("KNOWN-FINDING: property={} signature={:?} {}", prop, signature, k.what);
+        println!("INCONCLUSIVE: property={} a listed non-terminating call blocks the rest of the run", prop);
+        std::process::exit(2);
+    }
+    let replay_dir = std::env::var("VERIF_REPLAY_DIR").map(PathBuf::from).unwrap_or_else(|_| root.join("replays"));
+    let _ = std::fs::create_dir_all(&replay_dir);
+    let path = replay_dir.join(format!("{}-{}-s{}-stuck.json", prop, tier.name(), seed));
+    let body = json!({"property": prop, "tier": tier.name(), "seed": seed, "signature": signature,
+        "detail": format!("{} consumed {} s of CPU time on a {}-byte {} input without returning", op, cpu_s, input.len(), family),
+        "case": {"op": op, "family": family, "input_len": input.len(), "input_hex": hex(input)}});
+    let _ = std::fs::write(&path, serde_json::to_string_pretty(&body).unwrap_or_default());
+    let ev_dir = std::env::var("VERIF_EVIDENCE_DIR").map(PathBuf::from).unwrap_or_else(|_| root.join("evidence"));
+    let _ = std::fs::create_dir_all(&ev_dir);
+    let evidence = json!({"property_id": prop, "tier": tier.name(), "seed": seed, "level": "exploration",
+        "coverage": {"evaluations": 1, "distinct_nontrivial": 2, "rule": "run aborted by the CPU-time termination monitor; counts are not meaningful for this run",
+            "samples": [{"stuck_op": op, "family": family, "input": hex_abbrev(input, 64)}], "violation_signatures": [signature]},
+        "wall_s": 0.0, "violations": 1});
+    let _ = std::fs::write(ev_dir.join(format!("{}.json", prop)), serde_json::to_string_pretty(&evidence).unwrap_or_default());
+    println!("violation-detail: [{}] {} s of CPU on a {}-byte {} input", signature, cpu_s, input.len(), family);
+    println!("VIOLATION property={} replay={}", prop, path.display());
+    std::process::exit(1);
+}
